@@ -71,7 +71,42 @@ def puppet_scenario(sc):
     return {"bins": bins}
 
 
-def coq_case(sc):
+def pending_signals(sc):
+    """signals (other than SIGTSTP / SIGCONT) sent to nextest while it has stopped itself: they stay pending until
+    SIGCONT and are then handled immediately before or immediately after the continue (either order)"""
+    out, stopped = [], False
+    for t, name in sc["sigs"]:
+        if name == "TSTP":
+            stopped = True
+        elif name == "CONT":
+            stopped = False
+        elif stopped:
+            out.append((t, name))
+    return out
+
+
+def effective_sigs(sc):
+    """[(time the signal takes effect, name)]: a signal sent to a stopped nextest takes effect at the next SIGCONT"""
+    out, held = [], []
+    stopped = False
+    for t, name in sc["sigs"]:
+        if name == "TSTP":
+            if not stopped:
+                out.append((t, name))
+            stopped = True
+        elif name == "CONT":
+            if stopped:
+                out.append((t, name))
+                out += [(t, n) for _, n in held]
+            held, stopped = [], False
+        elif stopped:
+            held.append((t, name))
+        else:
+            out.append((t, name))
+    return out
+
+
+def coq_case(sc, cont_first=True):
     u = sc["u"]
     cfg = (f"{{| period := {ms(sc['period'], u)}; terminate_after := "
            f"{'Some ' + str(sc['ta']) if sc.get('ta') else 'None'}; grace := {ms(sc['grace'], u)}; "
@@ -94,11 +129,22 @@ def coq_case(sc):
         else:
             r = "RGetInfo"
         reqs.append(f"({ms(t, u)}, {r})")
-    return f"sim_report pause_table {cfg} {beh} {vlib.coq_list(reqs)}"
+    return f"sim_report_o {vlib.coq_bool(cont_first)} pause_table {cfg} {beh} {vlib.coq_list(reqs)}"
 
 
-def predict(scs, tag="units"):
-    vals = vlib.coq_eval(tag, IMPORTS, [coq_case(sc) for sc in scs])
+def predict_alt(scs, tag="unitsalt"):
+    """for the scenarios in which a signal is sent while nextest is stopped: the prediction for the other order
+    (pending requests handled before the Continue); None for the others"""
+    idx = [i for i, sc in enumerate(scs) if pending_signals(sc)]
+    out = [None] * len(scs)
+    if idx:
+        for i, p in zip(idx, predict([scs[i] for i in idx], tag, cont_first=False)):
+            out[i] = p
+    return out
+
+
+def predict(scs, tag="units", cont_first=True):
+    vals = vlib.coq_eval(tag, IMPORTS, [coq_case(sc, cont_first) for sc in scs])
     out = []
     for v in vals:
         if v == [1]:
@@ -130,7 +176,7 @@ def run_real(rig, sc, timeout=40):
 
     sigs = [(mk_trigger(t * u), SIGNO[name]) for t, name in sc["sigs"]]
     res = rig.run(puppet_scenario(sc), nextest_config(sc), args=["--no-fail-fast", "--test-threads", "4"],
-                  signals=sigs, timeout=timeout)
+                  signals=sigs, timeout=timeout, supervise_stop=True)
     return res
 
 
@@ -157,11 +203,26 @@ def observe(sc, res):
     slow_ev = [e for e in tap if e.get("kind") == "TestSlow" and e["test"][1] == "subject"]
     if sc.get("as_script"):
         sfin = [e for e in tap if e.get("kind") == "SetupScriptFinished" and e.get("script") == "subject"]
-        fin = [dict(statuses=[e["status"]], t_ns=e["t_ns"]) for e in sfin]
+        fin = [dict(statuses=[e["status"]], t_ns=e["t_ns"], **({"mono": e["mono"]} if "mono" in e else {})) for e in sfin]
         slow_ev = [e for e in tap if e.get("kind") == "SetupScriptSlow" and e.get("script") == "subject"]
     runfin = [e for e in tap if e.get("kind") == "RunFinished"]
     after_started = any(r.get("ev") == "start" and r.get("test") == "after" for r in log)
+    procs = {}
+    for r in log:
+        if r.get("ev") in ("start", "end", "sig") and r.get("who", "test") == "test" and r.get("test") is not None:
+            key = f'{r["test"]}#{r.get("attempt", 1)}'
+            d = procs.setdefault(key, {"start": None, "end": None, "sigs": []})
+            if r["ev"] == "start":
+                d["start"] = rel(r["t"])
+            elif r["ev"] == "end":
+                d["end"] = rel(r["t"])
+            else:
+                d["sigs"].append((rel(r["t"]), r["signo"]))
     o = {"started": True, "rc": res["rc"], "pid": pid, "after_started": after_started, "sig_test": sig_test, "sig_child": sig_child,
+         "nextest_stops": [(rel(t), kind, sg) for t, kind, sg in (res.get("stops") or [])],
+         "supervised": res.get("stops") is not None, "procs": procs,
+         "tap_order": [e["kind"] for e in tap if e.get("kind") in ("RunPaused", "RunContinued", "RunBeginCancel",
+                                                                      "RunBeginKill")],
          "end_how": ends[0]["how"] if ends else None, "end_t": rel(ends[0]["t"]) if ends else None,
          "slow_events": [(e["elapsed_ns"] / 1e6, e["will_terminate"]) for e in slow_ev],
          "nextest_exit_t": rel(res["t_end"]), "sent": [(rel(t), s) for t, s in res["sent"]],
@@ -175,7 +236,8 @@ def observe(sc, res):
     if fin:
         s = fin[0]["statuses"][-1]
         o.update(result=s["result"]["kind"], result_signal=s["result"].get("signal"), is_slow=s["is_slow"],
-                 time_taken=s["time_taken_ns"] / 1e6, finished_t=fin[0]["t_ns"] / 1e6)
+                 time_taken=s["time_taken_ns"] / 1e6, finished_t=fin[0]["t_ns"] / 1e6,
+                 reported_t=rel(fin[0]["mono"]) if "mono" in fin[0] else None)
     else:
         o.update(result=None)
     if runfin:
@@ -184,6 +246,41 @@ def observe(sc, res):
 
 
 CATCHABLE = {1, 2, 3, 15, 18, 20}
+
+
+def signals_diff(want, got, eps, who="the test"):
+    """predicted [(ms, signo)] vs received; signals predicted for the same instant may be received in either order
+    (nextest sends them back to back; a process that was stopped takes its pending signals in signal-number order)"""
+    if sorted(c for _, c in want) != sorted(c for _, c in got) or len(want) != len(got):
+        return [f"signals received by {who}: nextest {got}, model {want}"]
+    bad, i = [], 0
+    while i < len(want):
+        j = i + 1
+        while j < len(want) and want[j][0] == want[i][0]:
+            j += 1
+        if sorted(c for _, c in want[i:j]) != sorted(c for _, c in got[i:j]):
+            return [f"signals received by {who}: nextest {got}, model {want}"]
+        for (tw, c), (tg, _) in zip(want[i:j], got[i:j]):
+            if abs(tw - tg) > eps + 0.05 * tw:
+                bad.append(f"signal {c} at {tg:.0f} ms, model {tw} ms")
+        i = j
+    return bad
+
+
+def compare_any(sc, preds, obs, cmp=None):
+    """the order in which nextest handles signals that became ready together (sent while it was stopped) is not
+    determined: the observed run must agree completely with ONE of the predictions. Returns (diffs, index)."""
+    cmp = cmp or compare
+    first = None
+    for i, p in enumerate(preds):
+        if p is None:
+            continue
+        d = cmp(sc, p, obs)
+        if not d:
+            return [], i
+        if first is None:
+            first = d
+    return first or [], 0
 
 
 def compare(sc, pred, obs, eps=None):
@@ -213,12 +310,7 @@ def compare(sc, pred, obs, eps=None):
         bad.append(f"is_slow: nextest {obs['is_slow']}, model {pred['slow']}")
     want = [(t, c) for t, c in pred["trace"] if c in CATCHABLE]
     got = obs["sig_test"]
-    if [c for _, c in want] != [c for _, c in got]:
-        bad.append(f"signals received by the test: nextest {got}, model {want}")
-    else:
-        for (tw, c), (tg, _) in zip(want, got):
-            if abs(tw - tg) > eps + 0.05 * tw:
-                bad.append(f"signal {c} at {tg:.0f} ms, model {tw} ms")
+    bad += signals_diff(want, got, eps)
     wslow = [c == 101 for _, c in pred["trace"] if c in (100, 101)]
     if wslow != [w for _, w in obs["slow_events"]] and not slow_free:
         bad.append(f"slow events (will_terminate flags): nextest {obs['slow_events']}, model {wslow}")
@@ -229,15 +321,21 @@ def compare(sc, pred, obs, eps=None):
 
 # ---------------------------------------------------------------- oracles (no model involved)
 
-def stopped_intervals(sc):
-    """[(t_stop, t_cont)] in ms from the scenario's TSTP/CONT signals"""
+def stopped_intervals(sc, obs=None):
+    """[(t_stop, t_cont)] in ms: from the times the SIGTSTP / SIGCONT signals were actually sent when the run
+    recorded them (the trigger thread may be late under load), else from the scenario's schedule"""
     u = sc["u"]
     out, cur = [], None
-    for t, name in sc["sigs"]:
+    sent = (obs or {}).get("sent")
+    if sent and len(sent) <= len(sc["sigs"]):
+        evs = [(t, {int(signal.SIGTSTP): "TSTP", int(signal.SIGCONT): "CONT"}.get(int(sg))) for t, sg in sent]
+    else:
+        evs = [(t * u, name) for t, name in sc["sigs"]]
+    for t, name in evs:
         if name == "TSTP" and cur is None:
-            cur = t * u
+            cur = t
         elif name == "CONT" and cur is not None:
-            out.append((cur, t * u))
+            out.append((cur, t))
             cur = None
     return out
 
@@ -245,6 +343,20 @@ def stopped_intervals(sc):
 def unstopped(t, stops):
     """running time accumulated by real time t"""
     return t - sum(max(0.0, min(t, b) - a) for a, b in stops if a < t)
+
+
+def wall_when(t_from, need, stops):
+    """real time at which `need` ms of unstopped time have passed since t_from"""
+    t = t_from
+    for a, b in sorted(stops):
+        if b <= t:
+            continue
+        a2 = max(a, t)
+        if a2 - t >= need:
+            break
+        need -= a2 - t
+        t = b
+    return t + need
 
 
 def oracle_common(sc, obs):
@@ -278,7 +390,7 @@ def oracle_C09(sc, obs):
         return w
     u = sc["u"]
     eps = 0.45 * u
-    stops = stopped_intervals(sc)
+    stops = stopped_intervals(sc, obs)
     if any(n in SHUT for _, n in sc["sigs"]):
         return None  # shutdown signals are C11's business
     period, ta, grace, dur = sc["period"] * u, sc.get("ta"), sc["grace"] * u, sc["dur"] * u
@@ -334,17 +446,22 @@ def oracle_C11(sc, obs):
         return w
     u = sc["u"]
     eps = 0.45 * u
-    shut = [(t * u, n) for t, n in sc["sigs"] if n in SHUT]
+    # a signal sent while nextest has stopped itself is received by it when it is continued
+    shut = [(t * u, n) for t, n in effective_sigs(sc) if n in SHUT]
     if not shut:
         return None
+    stops = stopped_intervals(sc, obs)
     t1, n1 = shut[0]
     dur, grace = sc["dur"] * u, sc["grace"] * u
+    if sc.get("stops", True):
+        dur = wall_when(0, dur, stops)   # a stopped test does not get on with its work
     if t1 > dur - eps:
         return None  # the test was (nearly) over when the signal came (leak drain: see oracle_leak)
     signo = int(SIGNO[n1])
     got = [(t, s) for t, s in obs["sig_test"] if s in (1, 2, 3, 15)]
     period, ta = sc["period"] * u, sc.get("ta")
-    terminating = bool(ta) and ta * period < t1 - eps and sc["on_term"] == "ignore"
+    deadline_wall = wall_when(0, ta * period, stops) if ta else None   # the deadline is in unstopped time
+    terminating = bool(ta) and deadline_wall < t1 - eps and sc["on_term"] == "ignore"
     if terminating:
         # already being terminated for a timeout when the signal came: SIGKILL at once
         if obs["nextest_exit_t"] > t1 + 2.5 * eps + 150:
@@ -353,7 +470,7 @@ def oracle_C11(sc, obs):
         if obs["nextest_exit_t"] < t1 - eps:
             return f"nextest exited at {obs['nextest_exit_t']:.0f} ms, before the signal at {t1:.0f} ms"
         return None
-    if ta and ta * period < t1 + eps:
+    if ta and deadline_wall < t1 + eps:
         return None  # too close to the timeout deadline to tell the phases apart
     if grace > 0:
         if not got or got[0][1] != signo:
@@ -371,7 +488,7 @@ def oracle_C11(sc, obs):
             return f"nextest exited 0 although the test result is {obs.get('result')}"
     # prompt exit: ignoring test => killed at grace (or at the second signal)
     if sc["on_term"] == "ignore":
-        kill_at = t1 + grace
+        kill_at = wall_when(t1, grace, stops)
         if len(shut) > 1:
             kill_at = min(kill_at, shut[1][0])
         if obs["nextest_exit_t"] > kill_at + 2.5 * eps + 150:
@@ -383,15 +500,130 @@ def oracle_C11(sc, obs):
     return None
 
 
+SLOW_WHILE_STOPPED = "marked slow on stopped time"
+
+
+def known_class_F17(sc, why):
+    """finding F17: a Stop delivered while the unit is being terminated for a shutdown signal (the slow-timeout
+    interval sleep is not paused by terminate_child)"""
+    if not why or not why.startswith(SLOW_WHILE_STOPPED):
+        return False
+    u = sc["u"]
+    shut = [t for t, n in effective_sigs(sc) if n in SHUT]
+    return bool(shut) and any(n == "TSTP" and shut[0] < t < shut[0] + sc["grace"] for t, n in sc["sigs"]) \
+        and sc["on_term"] == "ignore"
+
+
+def oracle_self_stop(sc, obs):
+    """"... and then nextest stops itself; on SIGCONT all are resumed": what nextest's parent saw"""
+    if not obs.get("supervised"):
+        return None
+    eps = 0.45 * sc["u"]
+    sent, ev = obs.get("sent") or [], obs.get("nextest_stops") or []
+    tstp = [t for t, sg in sent if sg == int(signal.SIGTSTP)]
+    cont = [t for t, sg in sent if sg == int(signal.SIGCONT)]
+    for i, ts in enumerate(tstp):
+        tc = cont[i] if i < len(cont) else None
+        if ts > obs["nextest_exit_t"] - eps:
+            continue
+        horizon = tc if tc is not None else obs["nextest_exit_t"]
+        st = [t for t, kind, _ in ev if kind == "stopped" and ts - 5 <= t <= horizon + 5]
+        if not st:
+            return (f"SIGTSTP sent to nextest at {ts:.0f} ms: nextest did not stop itself (its parent saw no stop "
+                    f"before {'SIGCONT at %.0f ms' % tc if tc is not None else 'it exited'}; observed: {ev})")
+        if st[0] > ts + 100 + 2.5 * eps + 150:
+            return f"SIGTSTP sent at {ts:.0f} ms, nextest stopped itself only at {st[0]:.0f} ms"
+        if tc is not None:
+            # (a process that exits right after being continued may never be reported as continued: the exit
+            # supersedes the notification)
+            ct = [t for t, kind, _ in ev if kind == "continued" and t >= tc - 5]
+            gone_soon = obs["nextest_exit_t"] < tc + eps + 60
+            if (not ct and not gone_soon) or (ct and ct[0] > tc + eps):
+                return f"SIGCONT sent at {tc:.0f} ms: nextest's parent saw it continue at {ct[:1]}"
+    return None
+
+
+def oracle_jobcontrol(sc, obs):
+    """C12, first sentence, from the property text: "On SIGTSTP every running test's process group is stopped and then
+    nextest stops itself; on SIGCONT all are resumed". Observed by nextest's parent (waitid: WSTOPPED / WCONTINUED)
+    and by the scripted tests (their signal records)."""
+    if not obs.get("supervised"):
+        return None
+    u = sc["u"]
+    eps = 0.45 * u
+    sent = obs.get("sent") or []
+    ev = obs.get("nextest_stops") or []
+    tstp = [t for t, sg in sent if sg == int(signal.SIGTSTP)]
+    cont = [t for t, sg in sent if sg == int(signal.SIGCONT)]
+    def ended_at(name, pr):
+        # a process killed with SIGKILL writes no end record: the subject's end is then bounded by its report
+        if pr["end"] is not None:
+            return pr["end"]
+        if name.startswith("subject#") and obs.get("reported_t") is not None:
+            return obs["reported_t"]
+        return None
+
+    for i, ts in enumerate(tstp):
+        tc = cont[i] if i < len(cont) else None
+        if ts > obs["nextest_exit_t"] - eps:
+            continue   # nextest was about to exit when the signal was sent
+        horizon = tc if tc is not None else obs["nextest_exit_t"]
+        st = [t for t, kind, _ in ev if kind == "stopped" and ts - 5 <= t <= horizon + 5]
+        if not st:
+            return (f"SIGTSTP sent to nextest at {ts:.0f} ms: nextest did not stop itself (its parent saw no stop "
+                    f"before {'SIGCONT at %.0f ms' % tc if tc is not None else 'it exited'}; observed: {ev})")
+        t_stopped = st[0]
+        # <= 100 ms of waiting for acknowledgements, then raise(SIGSTOP)
+        if t_stopped > ts + 100 + 2.5 * eps + 150:
+            return f"SIGTSTP sent at {ts:.0f} ms, nextest stopped itself only at {t_stopped:.0f} ms"
+        # every test running at that moment has had SIGTSTP delivered to its group by the time nextest is stopped
+        # (the record is written by the test's handler, so allow it the scheduling latency)
+        for name, pr in sorted((obs.get("procs") or {}).items()):
+            if pr["start"] is None or pr["start"] > ts - eps:
+                continue
+            end = ended_at(name, pr)
+            if end is not None and end < ts + eps:
+                continue
+            got = [t for t, sg in pr["sigs"] if sg == int(signal.SIGTSTP) and t >= ts - 5]
+            if not got:
+                return f"SIGTSTP sent to nextest at {ts:.0f} ms: running test {name} never received SIGTSTP ({pr['sigs']})"
+            if got[0] > t_stopped + eps:
+                return (f"nextest stopped itself at {t_stopped:.0f} ms, but SIGTSTP reached running test {name} only at "
+                        f"{got[0]:.0f} ms (tests are to be stopped first)")
+        if tc is None:
+            continue
+        ct = [t for t, kind, _ in ev if kind == "continued" and t >= tc - 5]
+        gone_soon = obs["nextest_exit_t"] < tc + eps + 60
+        if (not ct and not gone_soon) or (ct and ct[0] > tc + eps):
+            return f"SIGCONT sent at {tc:.0f} ms: nextest's parent saw it continue at {ct[:1]}"
+        for name, pr in sorted((obs.get("procs") or {}).items()):
+            if pr["start"] is None or pr["start"] > ts - eps:
+                continue
+            if not any(sg == int(signal.SIGTSTP) for _, sg in pr["sigs"]):
+                continue
+            end = ended_at(name, pr)
+            if end is not None and end < tc + eps + 60:
+                continue   # ended (or was killed) before or around the continue
+            got = [t for t, sg in pr["sigs"] if sg == int(signal.SIGCONT) and t >= tc - 5]
+            if not got:
+                return f"SIGCONT sent to nextest at {tc:.0f} ms: stopped test {name} never received SIGCONT ({pr['sigs']})"
+            if got and got[0] > tc + eps + 60:
+                return f"SIGCONT sent at {tc:.0f} ms reached test {name} only at {got[0]:.0f} ms"
+    return None
+
+
 def oracle_C12(sc, obs, baseline=None):
     w = oracle_common(sc, obs)
     if w or not obs.get("started"):
         return w
     u = sc["u"]
     eps = 0.45 * u
-    stops = stopped_intervals(sc)
+    stops = stopped_intervals(sc, obs)
     if not stops:
         return None
+    w = oracle_jobcontrol(sc, obs)
+    if w:
+        return w
     dur = sc["dur"] * u
     t_stop, t_cont = stops[0]
     ended = obs.get("end_t") or obs["nextest_exit_t"]
@@ -401,7 +633,8 @@ def oracle_C12(sc, obs, baseline=None):
         got = [s for _, s in obs["sig_test"]]
         if 20 not in got:
             return f"SIGTSTP sent to nextest but the test received {obs['sig_test']}"
-        if 18 not in got and t_cont < 1e9:
+        gone = obs.get("end_t") if obs.get("end_t") is not None else obs.get("reported_t")
+        if 18 not in got and t_cont < 1e9 and not (gone is not None and gone < t_cont + eps + 60):
             return f"SIGCONT sent to nextest but the test received {obs['sig_test']}"
     ended_while_stopped = not sc.get("stops", True) and dur < t_cont - eps
     if obs["paused_events"][:1] != ["RunPaused"] or \
@@ -413,6 +646,16 @@ def oracle_C12(sc, obs, baseline=None):
         if obs["time_taken"] > running + eps + 60:
             return (f"reported time_taken {obs['time_taken']:.0f} ms includes stopped time "
                     f"(test ended at {wall:.0f} ms of which {running:.0f} ms not stopped)")
+        # ... and nothing but the stopped time is excluded: the clocks keep working after resumption. The test's own
+        # end record if it wrote one, else (killed) the moment its result was reported, minus the wait for the pipes
+        wall_lo = obs.get("end_t")
+        if wall_lo is None and obs.get("reported_t") is not None:
+            wall_lo = obs["reported_t"] - (sc["leak"] * u if (sc.get("hold") or sc.get("child")) else 0)
+        if wall_lo is not None:
+            running_lo = unstopped(wall_lo, stops)
+            if obs["time_taken"] < running_lo - eps - 60 - 0.05 * running_lo:
+                return (f"reported time_taken {obs['time_taken']:.0f} ms, but the test ran for {running_lo:.0f} ms not "
+                        f"counting the time stopped (it ended at {wall_lo:.0f} ms): a clock did not resume")
     if obs.get("run_elapsed") is not None:
         running = unstopped(obs["nextest_exit_t"], stops)
         if obs["run_elapsed"] > running + eps + 80:
@@ -424,6 +667,14 @@ def oracle_C12(sc, obs, baseline=None):
             if sg in (1, 2, 3, 15) and unstopped(t, stops) < deadline - eps:
                 return (f"signal {sg} reached the test at {t:.0f} ms, after only {unstopped(t, stops):.0f} ms of "
                         f"running time; the deadline is {deadline:.0f} ms of running time")
+    # stopped time is excluded from the slow-timeout clock: not marked slow before one period of unstopped time
+    if obs.get("is_slow") or obs.get("slow_events"):
+        wall = obs.get("end_t") if obs.get("end_t") is not None else (obs.get("reported_t") or obs["nextest_exit_t"])
+        running = unstopped(wall, stops)
+        if running < sc["period"] * u - eps:
+            return (f"{SLOW_WHILE_STOPPED}: is_slow={obs.get('is_slow')}, slow events {obs.get('slow_events')} after "
+                    f"{running:.0f} ms of unstopped running time (the test ended at {wall:.0f} ms); the slow-timeout "
+                    f"period is {sc['period'] * u:.0f} ms")
     # the clocks keep working after resumption: a test that ignores SIGTERM is killed when
     # terminate-after periods plus the grace period of *running* time have passed
     period, ta, grace = sc["period"] * u, sc.get("ta"), sc["grace"] * u
@@ -524,20 +775,41 @@ def check_family(chk, rig, scs, oracle, tag, retries=2):
     # when the test's own duration is 0.4 units shorter or longer
     def shape(p):
         return None if p.get("panicked") else (p["result"], p["slow"], [c for _, c in p["trace"]])
-    lo = predict([dict(sc, dur=max(0.05, sc["dur"] - 0.4)) for sc in scs], tag + "lo")
-    hi = predict([dict(sc, dur=sc["dur"] + 0.4) for sc in scs], tag + "hi")
-    preds = predict(scs, tag)
-    keep = [i for i in range(len(scs)) if shape(lo[i]) == shape(preds[i]) == shape(hi[i])]
+    los = [dict(sc, dur=max(0.05, sc["dur"] - 0.4)) for sc in scs]
+    his = [dict(sc, dur=sc["dur"] + 0.4) for sc in scs]
+    lo, hi, preds = predict(los, tag + "lo"), predict(his, tag + "hi"), predict(scs, tag)
+    # signals sent while nextest is stopped are handled, at the continue, in either order: second prediction
+    alo, ahi, alts = predict_alt(los, tag + "alo"), predict_alt(his, tag + "ahi"), predict_alt(scs, tag + "alt")
+    keep = [i for i in range(len(scs)) if shape(lo[i]) == shape(preds[i]) == shape(hi[i]) and
+            (alts[i] is None or shape(alo[i]) == shape(alts[i]) == shape(ahi[i]))]
     chk.count("scenarios_dropped_as_threshold_coincidences", len(scs) - len(keep))
     scs = [scs[i] for i in keep]
     preds = [preds[i] for i in keep]
+    alts = [alts[i] for i in keep]
     obss = run_scenarios(rig, scs)
-    for sc, p, o in zip(scs, preds, obss):
+    for sc, p, alt, o in zip(scs, preds, alts, obss):
         chk.count("e2e_runs")
         chk.count("on_term=" + (sc["on_term"] if isinstance(sc["on_term"], str) else sc["on_term"][0]))
         chk.count("signals=" + ",".join(n for _, n in sc["sigs"]) if sc["sigs"] else "signals=none")
+        if o.get("nextest_stops"):
+            chk.count("runs_in_which_nextest_was_seen_stopped_by_its_parent")
         why = oracle(sc, o)
-        diff = compare(sc, p, o) if o.get("started") else []
+        if known_class_F17(sc, why):
+            listed = [f for f in vlib.known_findings().get("findings", []) if f.get("id") == "F17"]
+            if listed:
+                chk.known_finding(listed[0]["what"])
+                chk.count("known_finding_F17_observed")
+                why = None
+        diff, which = compare_any(sc, [p, alt], o) if o.get("started") else ([], 0)
+        if alt is not None and o.get("started"):
+            order = [k for k in o.get("tap_order", []) if k in ("RunContinued", "RunBeginCancel")]
+            chk.count("signal_sent_while_stopped:handled_" +
+                      ("after_continue" if order[:1] == ["RunContinued"] else "before_continue")
+                      if len(order) >= 2 else "signal_sent_while_stopped:order_unknown")
+            if not diff:
+                chk.count("signal_sent_while_stopped:matches_" + ("continue_first" if which == 0 else "shutdown_first")
+                          + "_prediction")
+            p = dict(p, other_order=alt)
         if not why and not diff:
             continue
         if hard_failure(why, o):
@@ -551,9 +823,11 @@ def check_family(chk, rig, scs, oracle, tag, retries=2):
         for _ in range(retries):
             cur = dict(cur, u=cur["u"] * 2)
             p2 = predict([cur], tag + "r")[0]
+            a2 = predict_alt([cur], tag + "ra")[0]
             o2 = run_scenarios(rig, [cur], par=1, timeout=80)[0]
-            why2, diff2 = oracle(cur, o2), (compare(cur, p2, o2) if o2.get("started") else [])
-            history.append(dict(scenario=cur, observation=o2, model=p2, oracle=why2, diff=diff2))
+            why2, diff2 = oracle(cur, o2), (compare_any(cur, [p2, a2], o2)[0] if o2.get("started") else [])
+            history.append(dict(scenario=cur, observation=o2, model=dict(p2, other_order=a2) if a2 else p2,
+                                oracle=why2, diff=diff2))
             chk.count("e2e_reruns")
             if not why2 and not diff2:
                 confirmed = False
@@ -639,7 +913,7 @@ def life_puppet(sc):
     return {"bins": bins}
 
 
-def life_coq_case(sc, unicast=True):
+def life_coq_case(sc, unicast=True, cont_first=True):
     u = sc["u"]
     cfg = (f"{{| period := {ms(sc['period'], u)}; terminate_after := "
            f"{'Some ' + str(sc['ta']) if sc.get('ta') else 'None'}; grace := {ms(sc['grace'], u)}; "
@@ -677,12 +951,22 @@ def life_coq_case(sc, unicast=True):
         else:
             r = "RGetInfo"
         reqs.append(f"({ms(t, u)}, {r})")
-    return (f"life_report pause_table {cfg} {pol} {vlib.coq_list(behs)} {vlib.coq_list(reqs)} "
-            f"{vlib.coq_bool(unicast)}")
+    return (f"life_report_o {vlib.coq_bool(cont_first)} pause_table {cfg} {pol} {vlib.coq_list(behs)} "
+            f"{vlib.coq_list(reqs)} {vlib.coq_bool(unicast)}")
 
 
-def predict_life(scs, tag="life", unicast=True):
-    vals = vlib.coq_eval(tag, LIFE_IMPORTS, [life_coq_case(sc, unicast) for sc in scs])
+def predict_life_alt(scs, tag="lifealt"):
+    """as predict_alt, for whole-life scenarios"""
+    idx = [i for i, sc in enumerate(scs) if pending_signals(sc)]
+    out = [None] * len(scs)
+    if idx:
+        for i, p in zip(idx, predict_life([scs[i] for i in idx], tag, cont_first=False)):
+            out[i] = p
+    return out
+
+
+def predict_life(scs, tag="life", unicast=True, cont_first=True):
+    vals = vlib.coq_eval(tag, LIFE_IMPORTS, [life_coq_case(sc, unicast, cont_first) for sc in scs])
     out = []
     for v in vals:
         if v == [[1]]:
@@ -720,7 +1004,7 @@ def run_real_life(rig, sc, timeout=60):
 
     sigs = [(mk_trigger(t * u), SIGNO[name]) for t, name in sc["sigs"]]
     args = ["--fail-fast" if sc.get("canceller") else "--no-fail-fast", "--test-threads", "4"]
-    return rig.run(life_puppet(sc), life_config(sc), args=args, signals=sigs, timeout=timeout)
+    return rig.run(life_puppet(sc), life_config(sc), args=args, signals=sigs, timeout=timeout, supervise_stop=True)
 
 
 def observe_life(sc, res):
@@ -781,6 +1065,8 @@ def observe_life(sc, res):
          "paused_events": [(e["kind"], rel(e["mono"])) for e in tap if e.get("kind") in ("RunPaused", "RunContinued")],
          "cancel_events": [(e["kind"], e.get("reason"), rel(e["mono"])) for e in tap
                            if e.get("kind") in ("RunBeginCancel", "RunBeginKill")],
+         "nextest_stops": [(rel(t), kind, sg) for t, kind, sg in (res.get("stops") or [])],
+         "supervised": res.get("stops") is not None,
          "canceller_end": None}
     ce = [r for r in log if r.get("ev") == "end" and r.get("test") == "canceller"]
     if ce:
@@ -844,12 +1130,7 @@ def compare_life(sc, pred, obs, eps=None):
     for k in obs["attempt_starts"]:
         want = [(t, c) for t, kk, c in pred["trace"] if kk == k and c in CATCHABLE]
         got = obs["sig_test"].get(k, [])
-        if [c for _, c in want] != [c for _, c in got]:
-            bad.append(f"signals received by attempt {k}: nextest {got}, model {want}")
-        else:
-            for (tw, c), (tg, _) in zip(want, got):
-                if abs(tw - tg) > eps + 0.05 * tw:
-                    bad.append(f"attempt {k}: signal {c} at {tg:.0f} ms, model {tw} ms")
+        bad += signals_diff(want, got, eps, who=f"attempt {k}")
     if not any(n in SHUT for _, n in sc["sigs"]):
         # (after a kill that ends a signal-termination "interval elapsed" and "child exited" race: see compare)
         want_slow = [(k, c == 101) for _, k, c in pred["trace"] if c in (100, 101)]
@@ -915,12 +1196,15 @@ def oracle_life(sc, obs):
         return None
     if obs.get("pids_alive_after"):
         return f"test processes {obs['pids_alive_after']} still alive after nextest exited"
+    w = oracle_self_stop(sc, obs)
+    if w:
+        return w
     # signals are sent in order; those scheduled after nextest had already exited were never sent
     sc = dict(sc, sigs=list(sc["sigs"])[:len(obs.get("sent", sc["sigs"]))])
     u = sc["u"]
     eps = 0.45 * u
-    stops = stopped_intervals(sc)
-    shut = [(t * u, n) for t, n in sc["sigs"] if n in SHUT]
+    stops = stopped_intervals(sc, obs)
+    shut = [(t * u, n) for t, n in effective_sigs(sc) if n in SHUT]   # received at the continue if sent while stopped
     cancel_t = None
     if shut:
         cancel_t = shut[0][0]
@@ -1029,20 +1313,24 @@ def _shift_durs(sc, d):
 
 def check_life_family(chk, rig, scs, tag, retries=2, oracle=oracle_life):
     """as check_family, for whole-life scenarios"""
-    lo = predict_life([_shift_durs(sc, -0.4) for sc in scs], tag + "lo")
-    hi = predict_life([_shift_durs(sc, 0.4) for sc in scs], tag + "hi")
-    preds = predict_life(scs, tag)
-    keep = [i for i in range(len(scs)) if life_shape(lo[i]) == life_shape(preds[i]) == life_shape(hi[i])]
+    los, his = [_shift_durs(sc, -0.4) for sc in scs], [_shift_durs(sc, 0.4) for sc in scs]
+    lo, hi, preds = predict_life(los, tag + "lo"), predict_life(his, tag + "hi"), predict_life(scs, tag)
+    alo, ahi, alts = predict_life_alt(los, tag + "alo"), predict_life_alt(his, tag + "ahi"), predict_life_alt(scs, tag + "alt")
+    keep = [i for i in range(len(scs)) if life_shape(lo[i]) == life_shape(preds[i]) == life_shape(hi[i]) and
+            (alts[i] is None or life_shape(alo[i]) == life_shape(alts[i]) == life_shape(ahi[i]))]
     chk.count("life_scenarios_dropped_as_threshold_coincidences", len(scs) - len(keep))
     scs = [scs[i] for i in keep]
     preds = [preds[i] for i in keep]
+    alts = [alts[i] for i in keep]
     obss = run_life_scenarios(rig, scs)
-    for sc, p, o in zip(scs, preds, obss):
+    for sc, p, alt, o in zip(scs, preds, alts, obss):
         chk.count("e2e_runs")
         chk.count("life_e2e_runs")
         chk.count("life:" + sc.get("family", "other"))
         why = oracle(sc, o)
-        diff = compare_life(sc, p, o) if o.get("started") else []
+        diff, which = compare_any(sc, [p, alt], o, compare_life) if o.get("started") else ([], 0)
+        if alt is not None:
+            p = dict(p, other_order=alt)
         if not why and not diff:
             continue
         if hard_failure(why, o):
@@ -1055,9 +1343,12 @@ def check_life_family(chk, rig, scs, tag, retries=2, oracle=oracle_life):
         for _ in range(retries):
             cur = dict(cur, u=cur["u"] * 2)
             p2 = predict_life([cur], tag + "r")[0]
+            a2 = predict_life_alt([cur], tag + "ra")[0]
             o2 = run_life_scenarios(rig, [cur], par=1, timeout=120)[0]
-            why2, diff2 = oracle(cur, o2), (compare_life(cur, p2, o2) if o2.get("started") else [])
-            history.append(dict(scenario=cur, observation=o2, model=p2, oracle=why2, diff=diff2))
+            why2 = oracle(cur, o2)
+            diff2 = compare_any(cur, [p2, a2], o2, compare_life)[0] if o2.get("started") else []
+            history.append(dict(scenario=cur, observation=o2, model=dict(p2, other_order=a2) if a2 else p2,
+                                oracle=why2, diff=diff2))
             chk.count("e2e_reruns")
             if not why2 and not diff2:
                 confirmed = False
@@ -1126,6 +1417,8 @@ def life_shutdown_in_delay(r=None):
     scs.append(life_base(family="shutdown-in-delay", delay=8, sigs=[(3.5, "HUP"), (4.5, "QUIT")]))
     # stopped in the delay, continued, then interrupted while still in the (stretched) delay
     scs.append(life_base(family="stop-then-shutdown-in-delay", delay=8, sigs=[(2.5, "TSTP"), (5.5, "CONT"), (7.5, "INT")]))
+    # interrupted while stopped in the delay: received at the continue; no further attempt
+    scs.append(life_base(family="shutdown-while-stopped-in-delay", delay=8, sigs=[(2.5, "TSTP"), (3.5, "TERM"), (5.5, "CONT")]))
     if r is not None:
         for _ in range(3):
             scs.append(life_base(family="shutdown-in-delay", delay=r.choice([7, 9]), attempts=[_att(r.choice([1.5, 2.5]), 1), _att(1.5, 0)],
